@@ -2,6 +2,8 @@
 coq/gen/Gen_fmtbuf.v:
 
     clear_policy : policy        ClearAfterOnly | ClearBefore | ClearGuard   (BufferModel.v explains them)
+    tee_runs_both : bool         `impl_tee!` calls BOTH writers of a `Tee` before propagating an error
+                                 (true) or returns at the first error (false)   (WriterModel.tee_apply)
     gen_unrecognised : list string
 
 The model in Fmt/BufferModel.v hard-wires the rest of the protocol (thread-local `RefCell<String>`,
@@ -18,6 +20,7 @@ sys.path.insert(0, os.path.dirname(os.path.abspath(__file__)))
 from rsparse import strip_comments, find_blocks, fns_in, norm, coq_str  # noqa: E402
 
 FILE = "tracing-subscriber/src/fmt/fmt_subscriber.rs"
+WFILE = "tracing-subscriber/src/fmt/writer.rs"
 
 
 def on_event_body(src):
@@ -63,10 +66,14 @@ def analyse(repo):
     els = expect(r"\} else if self\.log_internal_errors \{", "else-if log_internal_errors branch")
     if els:
         okb = t[ok_end:els.start()]
-        if re.search(r"make_writer|write_all|\.write\(|write!|writeln!", okb):
+        if re.search(r"make_writer|write_all|\.write\(|write!|writeln!|\.flush\(", okb):
             unrec.append("Ok branch: extra writer call after the write_all")
+        # the io::Result of the write is ignored except for a report on stderr: no retry, no early return, no state
+        if not re.fullmatch(r"\s*if self\.log_internal_errors \{ if let Err\(e\) = res \{ eprintln!\((?:[^()]|\([^()]*\))*\); \} \}\s*", okb):
+            unrec.append("Ok branch: what follows the write_all is not `if log_internal_errors { if let Err(e) = res { eprintln!(..) } }`: `%s`" % okb.strip()[:100])
     expect(r"let mut writer = self\.make_writer\.make_writer_for\(event\.metadata\(\)\);", "error branch: make_writer_for(event.metadata())")
     expect(r"let res = io::Write::write_all\(&mut writer, err_msg\.as_bytes\(\)\);", "error branch: write_all(err_msg)")
+    expect(r"if let Err\(e\) = res \{ eprintln!\((?:[^()]|\([^()]*\))*\); \}", "error branch: the write's result is only reported on stderr", advance=False)
     # the if/else chain closes, then the tail of the closure
     tail_m = re.compile(r"\} \} (.*)\}\);$").search(t, pos)
     tail = tail_m.group(1).strip() if tail_m else None
@@ -108,8 +115,67 @@ def analyse(repo):
     return policy, unrec
 
 
+def block_of(src, header_re):
+    for _, b, _, _ in find_blocks(src, header_re):
+        return b
+    return None
+
+
+def analyse_writer(repo):
+    """how the writer values forward io::Write (writer.rs): the Tee macro, Tee / EitherWriter / MutexGuardWriter impls"""
+    unrec = []
+    src = strip_comments(open(os.path.join(repo, WFILE)).read())
+    both = False
+    mac = block_of(src, r"macro_rules!\s+impl_tee\s*\{")
+    if mac is None:
+        unrec.append("macro impl_tee! not found")
+    else:
+        m = norm(mac)
+        run_both = r"\(\$self_:ident\.\$f:ident\(\$\(\$arg:ident\),\*\)\) => \{ \{ let res_a = \$self_\.a\.\$f\(\$\(\$arg\),\*\); let res_b = \$self_\.b\.\$f\(\$\(\$arg\),\*\); \(res_a\?, res_b\?\) \} \}"
+        short = r"\(\$self_:ident\.\$f:ident\(\$\(\$arg:ident\),\*\)\) => \{ \{? ?\(\$self_\.a\.\$f\(\$\(\$arg\),\*\)\?, \$self_\.b\.\$f\(\$\(\$arg\),\*\)\?\) ?\}? \}"
+        if re.fullmatch(run_both, m):
+            both = True
+        elif re.fullmatch(short, m):
+            both = False      # a recognised variant: `a`'s error returns before `b` is called
+        else:
+            unrec.append("impl_tee! body is neither `let res_a = a.f(); let res_b = b.f(); (res_a?, res_b?)` nor `(a.f()?, b.f()?)`: `%s`" % m[:140])
+    tee = block_of(src, r"impl<A, B> io::Write for Tee<A, B>[^{]*\{")
+    if tee is None:
+        unrec.append("impl io::Write for Tee not found")
+    else:
+        f = fns_in(tee)
+        want = {"write": r"let \(a, b\) = impl_tee!\(self\.write\(buf\)\); Ok\(std::cmp::max\(a, b\)\)",
+                "flush": r"impl_tee!\(self\.flush\(\)\); Ok\(\(\)\)",
+                "write_vectored": r"let \(a, b\) = impl_tee!\(self\.write_vectored\(bufs\)\); Ok\(std::cmp::max\(a, b\)\)",
+                "write_all": r"impl_tee!\(self\.write_all\(buf\)\); Ok\(\(\)\)",
+                "write_fmt": r"impl_tee!\(self\.write_fmt\(fmt\)\); Ok\(\(\)\)"}
+        for name, rx in want.items():
+            if name not in f or f[name][1] is None or not re.fullmatch(rx, norm(f[name][1])):
+                unrec.append("Tee::%s is not the impl_tee! forwarding the model assumes" % name)
+    ei = block_of(src, r"impl<A, B> io::Write for EitherWriter<A, B>[^{]*\{")
+    if ei is None:
+        unrec.append("impl io::Write for EitherWriter not found")
+    else:
+        f = fns_in(ei)
+        for name, arg in (("write", "buf"), ("flush", ""), ("write_vectored", "bufs"), ("write_all", "buf"), ("write_fmt", "fmt")):
+            rx = r"match self \{ EitherWriter::A\(a\) => a\.%s\(%s\), EitherWriter::B\(b\) => b\.%s\(%s\), \}" % (name, arg, name, arg)
+            if name not in f or f[name][1] is None or not re.fullmatch(rx, norm(f[name][1])):
+                unrec.append("EitherWriter::%s does not forward to the selected variant's %s" % (name, name))
+    mg = block_of(src, r"impl<W> io::Write for MutexGuardWriter<'_, W>[^{]*\{")
+    if mg is None:
+        unrec.append("impl io::Write for MutexGuardWriter not found")
+    else:
+        f = fns_in(mg)
+        for name, arg in (("write", "buf"), ("flush", ""), ("write_vectored", "bufs"), ("write_all", "buf"), ("write_fmt", "fmt")):
+            if name not in f or f[name][1] is None or norm(f[name][1]) != "self.0.%s(%s)" % (name, arg):
+                unrec.append("MutexGuardWriter::%s does not forward to the guarded writer" % name)
+    return both, unrec
+
+
 def main(repo, out):
     policy, unrec = analyse(repo)
+    both, unrec_w = analyse_writer(repo)
+    unrec = unrec + unrec_w
     lines = [
         "(** GENERATED by translators/fmtbuf.py from %s (fn on_event) -- do not edit. *)" % FILE,
         "From Coq Require Import String List.",
@@ -119,6 +185,9 @@ def main(repo, out):
         "",
         "(** Where the thread-local format buffer is cleared in the tree under check. *)",
         "Definition clear_policy : policy := %s." % policy,
+        "",
+        "(** %s: `impl_tee!` (behind every io::Write method of `Tee`) calls both writers, then propagates an error. *)" % WFILE,
+        "Definition tee_runs_both : bool := %s." % ("true" if both else "false"),
         "",
         "Definition gen_unrecognised : list string := [%s]." % "; ".join(coq_str(u) for u in unrec),
         "",
